@@ -5,6 +5,7 @@ import MwVerif.Driver.C12
 import MwVerif.Driver.C14
 import MwVerif.Driver.C13
 import MwVerif.Driver.C10
+import MwVerif.Driver.C20
 
 open MwVerif.Driver
 
@@ -13,6 +14,7 @@ def main (args : List String) : IO UInt32 := do
   let stdout ← IO.getStdout
   match args with
   | ["c15"] => loop stdin stdout C15.step; return 0
+  | ["c20"] => loop stdin stdout C20.step; return 0
   | ["c10"] => loop stdin stdout C10.step; return 0
   | ["c13"] => loop stdin stdout C13.step; return 0
   | ["c14"] => loop stdin stdout C14.step; return 0
